@@ -324,7 +324,8 @@ def run_sstate(shard, rec, B):
                     rec.refusal("ValueError:anticommuting stabilizers")
                 except Exception as e:
                     got = type(e).__name__
-                rec.check("sstate.raises", got == "ValueError", {"N": N, "list": _show(bg[perm], bp[perm])}, True,
+                # element-type shards: the kind of refusal is not judged, only that the inconsistent list is not accepted
+                rec.check("sstate.raises", got == "ValueError" or (getattr(rec, "lenient", False) and got != "accepted"), {"N": N, "list": _show(bg[perm], bp[perm])}, True,
                           expected="ValueError", observed=got)
 
 
